@@ -37,7 +37,11 @@ import (
 	"sync/atomic"
 	"time"
 
+	"github.com/krotik/ecal/config"
 	"github.com/krotik/ecal/engine"
+	"github.com/krotik/ecal/interpreter"
+	"github.com/krotik/ecal/parser"
+	"github.com/krotik/ecal/stdlib"
 	"github.com/krotik/ecal/verifhook"
 )
 
@@ -58,6 +62,7 @@ type c02Plan struct {
 	failFirst bool
 	seed      uint64
 	directed  bool
+	ecal      bool
 	cascs     []c02Casc
 }
 
@@ -75,6 +80,8 @@ func c02Parse(p string) *c02Plan {
 			pl.seed = v
 		case 'D':
 			pl.directed = v == 1
+		case 'M':
+			pl.ecal = v == 1
 		}
 	}
 	for _, cs := range f[1:] {
@@ -187,6 +194,7 @@ type c02State struct {
 	handed  map[int][]engine.Monitor
 	stamps  map[int]map[string]int64
 	unknown int
+	goCasc  map[uint64]int // goroutine evaluating addEventAndWait(...) -> cascade (ECAL mode)
 }
 
 var c02Cur atomic.Pointer[c02State]
@@ -246,12 +254,20 @@ func c02Hook(point string, args ...interface{}) {
 		return v
 	}
 	var gid uint64
-	if point == "cascade.pop" {
+	if point == "cascade.pop" || (point == "cascade.wait.registered" && st.plan.ecal) {
 		gid = c02Goid()
 	}
 	st.mu.Lock()
 	st.hooks++
 	root := u(0)
+	if point == "cascade.wait.registered" && st.plan.ecal {
+		// the root monitor was created inside the addEventAndWait builtin: bind it to the cascade
+		if ci, ok := st.goCasc[gid]; ok {
+			st.rootOf[root] = ci
+			st.dense[root] = 0
+			st.nextID[ci] = 1
+		}
+	}
 	park := false
 	switch point {
 	case "cascade.child":
@@ -340,7 +356,10 @@ func c02Run(payload string) string {
 	plan := c02Parse(payload)
 	st := &c02State{plan: plan, rng: NewRand(plan.seed), rootOf: map[uint64]int{}, dense: map[uint64]int{},
 		nextID: map[int]int{}, goIdx: map[uint64]int{}, trace: map[int][]string{}, nilSeen: map[int]int{},
-		handed: map[int][]engine.Monitor{}, stamps: map[int]map[string]int64{}}
+		handed: map[int][]engine.Monitor{}, stamps: map[int]map[string]int64{}, goCasc: map[uint64]int{}}
+	if plan.ecal {
+		return c02RunEcal(plan, st)
+	}
 	proc := engine.NewProcessor(plan.workers)
 	proc.SetFailOnFirstErrorInTriggerSequence(plan.failFirst)
 	proc.ThreadPool().TooManyCallback = func() {}
@@ -591,12 +610,254 @@ func c02Run(payload string) string {
 	return result
 }
 
+// ---------------------------------------------------------------- the same through ECAL sinks
+
+// c02Stamp is x.c02stamp(ci, ni, k, ok): completion stamp of a sink body (its last statement
+// before an optional raise) — needs the instance state to find the monitor.
+type c02Stamp struct{}
+
+func (c02Stamp) Run(instanceID string, vs parser.Scope, is map[string]interface{}, tid uint64, args []interface{}) (interface{}, error) {
+	st := c02Cur.Load()
+	if st == nil || len(args) != 4 {
+		return nil, nil
+	}
+	n := func(i int) int { f, _ := args[i].(float64); return int(f) }
+	st.mu.Lock()
+	defer st.mu.Unlock()
+	st.stamps[n(0)][fmt.Sprintf("%d.%d", n(1), n(2))] = atomic.AddInt64(&c02Clock, 1)
+	if m, ok := is["monitor"].(engine.Monitor); ok {
+		st.rec(m.RootMonitor().ID(), fmt.Sprintf("E%d.%d.%d", st.id(m.ID()), n(2), n(3)))
+	}
+	return nil, nil
+}
+func (c02Stamp) DocString() (string, error) { return "harness function", nil }
+
+func c02EcalSource(plan *c02Plan) string {
+	var sb strings.Builder
+	for ci := range plan.cascs {
+		c := &plan.cascs[ci]
+		for ni := range c.nodes {
+			n := &c.nodes[ni]
+			kind := fmt.Sprintf("c%dn%d", ci, ni)
+			switch n.kind {
+			case 'z':
+				fmt.Fprintf(&sb, "sink %sz\n kindmatch [\"%s\"],\n statematch {\"never\": \"x\"},\n priority 0\n{\n x.c02stamp(%d, %d, 99, 1)\n}\n", kind, kind, ci, ni)
+			case 't':
+				for k := range n.rules {
+					fmt.Fprintf(&sb, "sink %sr%d\n kindmatch [\"%s\"],\n priority %d\n{\n", kind, k, kind, k)
+					for _, ch := range n.children[k] {
+						fmt.Fprintf(&sb, " addEvent(\"c%dn%d\", \"c%dn%d\", {})\n", ci, ch, ci, ch)
+					}
+					ok := 1
+					if n.rules[k] == 'x' {
+						ok = 0
+					}
+					fmt.Fprintf(&sb, " x.c02stamp(%d, %d, %d, %d)\n", ci, ni, k, ok)
+					if ok == 0 {
+						fmt.Fprintf(&sb, " raise(\"c02\", \"E%sr%d\")\n", kind, k)
+					}
+					sb.WriteString("}\n")
+				}
+			}
+		}
+	}
+	return sb.String()
+}
+
+func c02RunEcal(plan *c02Plan, st *c02State) string {
+	config.Config[config.WorkerCount] = plan.workers
+	erp := interpreter.NewECALRuntimeProvider("c02", nil, &memLog{})
+	erp.Cron.Stop()
+	proc := erp.Processor
+	proc.SetFailOnFirstErrorInTriggerSequence(plan.failFirst)
+	proc.ThreadPool().TooManyCallback = func() {}
+	proc.SetRootMonitorErrorObserver(func(rm *engine.RootMonitor) {
+		errs := rm.AllErrors()
+		nils := 0
+		for _, e := range errs {
+			if e == nil || e.ErrorMap == nil || e.Event == nil {
+				nils++
+			}
+		}
+		st.mu.Lock()
+		st.obsDone++
+		if ci, ok := st.rootOf[rm.ID()]; ok {
+			st.nilSeen[ci] += nils
+		}
+		st.rec(rm.ID(), fmt.Sprintf("X%d", len(errs)))
+		st.mu.Unlock()
+	})
+	for ci := range plan.cascs {
+		st.stamps[ci] = map[string]int64{}
+	}
+	vs := newGlobalScope()
+	// a harmless statement in front: a plan without any sink gives an otherwise empty program
+	ast, err := parser.ParseWithRuntime("c02", "c02loaded := 1\n"+c02EcalSource(plan), erp)
+	if err == nil {
+		if err = ast.Runtime.Validate(); err == nil {
+			_, err = ast.Runtime.Eval(vs, make(map[string]interface{}), erp.NewThreadID())
+		}
+	}
+	if err != nil {
+		return "ECAL-SETUP-ERROR " + oneLine(err.Error())
+	}
+	c02Cur.Store(st)
+	defer c02Cur.Store(nil)
+	proc.Start()
+
+	type cres struct {
+		ret      bool
+		retStamp int64
+		val      interface{}
+		err      error
+	}
+	res := make([]*cres, len(plan.cascs))
+	var wg sync.WaitGroup
+	for ci := range plan.cascs {
+		ci := ci
+		r := &cres{}
+		res[ci] = r
+		call, err := parser.ParseWithRuntime("c02call", fmt.Sprintf("addEventAndWait(\"c%dn0\", \"c%dn0\", {})", ci, ci), erp)
+		if err == nil {
+			err = call.Runtime.Validate()
+		}
+		if err != nil {
+			return "ECAL-SETUP-ERROR " + oneLine(err.Error())
+		}
+		done := make(chan struct{})
+		wg.Add(1)
+		go func() {
+			defer wg.Done()
+			go func() {
+				st.mu.Lock()
+				st.goCasc[c02Goid()] = ci
+				st.mu.Unlock()
+				r.val, r.err = call.Runtime.Eval(vs.NewChild(fmt.Sprintf("casc%d", ci)), make(map[string]interface{}), erp.NewThreadID())
+				r.retStamp = atomic.AddInt64(&c02Clock, 1)
+				st.mu.Lock()
+				st.rec(c02RootOfCasc(st, ci), "R")
+				st.mu.Unlock()
+				close(done)
+			}()
+			select {
+			case <-done:
+				r.ret = true
+			case <-time.After(8 * time.Second):
+			}
+		}()
+	}
+	wg.Wait()
+	allRet := true
+	for _, r := range res {
+		allRet = allRet && r.ret
+	}
+	if allRet {
+		proc.Finish()
+	}
+	var out []string
+	for ci, r := range res {
+		if !r.ret {
+			out = append(out, "ret=0")
+			continue
+		}
+		if r.err != nil {
+			out = append(out, "ret=ERR "+oneLine(r.err.Error()))
+			continue
+		}
+		type ent struct {
+			n, k int
+			cl   string
+		}
+		var es []ent
+		foreign := 0
+		items, _ := r.val.([]interface{})
+		for _, it := range items {
+			im, _ := it.(map[interface{}]interface{})
+			evm, _ := im["event"].(map[interface{}]interface{})
+			evn := fmt.Sprint(evm["name"])
+			if !strings.HasPrefix(evn, fmt.Sprintf("c%dn", ci)) {
+				foreign++
+				continue
+			}
+			node, _ := strconv.Atoi(evn[strings.Index(evn, "n")+1:])
+			em, _ := im["errors"].(map[interface{}]interface{})
+			for rk, rv := range em {
+				rule := fmt.Sprint(rk)
+				k := -1
+				if strings.HasPrefix(rule, evn+"r") {
+					k, _ = strconv.Atoi(rule[len(evn)+1:])
+				}
+				cl := "?"
+				if d, ok := rv.(map[interface{}]interface{}); ok && fmt.Sprint(d["detail"]) == "E"+rule && fmt.Sprint(d["type"]) == "c02" {
+					cl = "e"
+				}
+				es = append(es, ent{node, k, cl})
+			}
+		}
+		sort.Slice(es, func(i, j int) bool {
+			if es[i].n != es[j].n {
+				return es[i].n < es[j].n
+			}
+			return es[i].k < es[j].k
+		})
+		var el []string
+		for _, e := range es {
+			el = append(el, fmt.Sprintf("%d.%d%s", e.n, e.k, e.cl))
+		}
+		e := "-"
+		if len(el) > 0 {
+			e = strings.Join(el, ",")
+		}
+		early := 0
+		st.mu.Lock()
+		for _, t := range st.stamps[ci] {
+			if t > r.retStamp {
+				early++
+			}
+		}
+		nl := st.nilSeen[ci]
+		st.mu.Unlock()
+		out = append(out, fmt.Sprintf("ret=1 early=%d handler=- fin=- errs=%s foreign=%d nil=%d", early, e, foreign, nl))
+	}
+	result := strings.Join(out, " ; ")
+	st.mu.Lock()
+	defer st.mu.Unlock()
+	if st.hooks > 0 && allRet {
+		CountRun("traces")
+		var ts []string
+		for ci := range plan.cascs {
+			ts = append(ts, strings.Join(st.trace[ci], ","))
+		}
+		result += " ~ " + strings.Join(ts, " ; ")
+	}
+	if !allRet {
+		go func() { time.Sleep(50 * time.Millisecond); panic("C02: wait did not return: " + result) }()
+		time.Sleep(time.Second)
+	}
+	return result
+}
+
+// c02RootOfCasc finds the go id of the root monitor bound to cascade ci (caller holds st.mu).
+func c02RootOfCasc(st *c02State, ci int) uint64 {
+	for r, c := range st.rootOf {
+		if c == ci {
+			return r
+		}
+	}
+	return 0
+}
+
 func init() {
 	register("C02", &Prop{
 		Timeout:          30 * time.Second,
 		NoRestartOnPanic: false,
-		Setup:            func() { verifhook.SetHandler(c02Hook) },
+		Setup: func() {
+			verifhook.SetHandler(c02Hook)
+			xPkgOnce.Do(func() { stdlib.AddStdlibPkg("x", "verification harness functions") })
+			check(stdlib.AddStdlibFunc("x", "c02stamp", c02Stamp{}))
+		},
 		Gen: func(g *Gen) {
+			ecalMode := false
 			emit := func(workers int, ff bool, directed bool, cs []c02Casc) {
 				var parts []string
 				for i := range cs {
@@ -611,7 +872,15 @@ func init() {
 				}
 				g.Count(fmt.Sprintf("cascades=%d", len(cs)))
 				g.Count(fmt.Sprintf("workers=%d", workers))
-				g.Emit(fmt.Sprintf("W%d,F%d,S%d,D%d %s", workers, f, g.R.Intn(1<<30), d, strings.Join(parts, " ")))
+				m := 0
+				if ecalMode {
+					m = 1
+					g.Count("through ECAL sinks")
+					for i := range parts {
+						parts[i] = "w" + parts[i][1:]
+					}
+				}
+				g.Emit(fmt.Sprintf("W%d,F%d,S%d,D%d,M%d %s", workers, f, g.R.Intn(1<<30), d, m, strings.Join(parts, " ")))
 			}
 			lit := func(s string) c02Casc { return c02Parse("W1 " + s).cascs[0] }
 			// corpus: the shapes of the repaired defect (several failing tasks in one cascade, error
@@ -629,12 +898,19 @@ func init() {
 					emit(w, false, true, []c02Casc{lit(c)})
 				}
 			}
+			ecalMode = true
+			for _, c := range corpus[:2] {
+				g.Count("corpus")
+				emit(4, false, true, []c02Casc{lit(c)})
+				emit(4, true, true, []c02Casc{lit(c), lit(c)})
+			}
+			ecalMode = false
 			for _, w := range []int{2, 8} {
 				g.Count("corpus")
 				emit(w, false, true, []c02Casc{lit(corpus[0]), lit(corpus[1]), lit(corpus[2])})
 				emit(w, true, true, []c02Casc{lit(corpus[1]), lit(corpus[1])})
 			}
-			n := 700
+			n := 1000
 			if g.Thorough() {
 				n = 12000
 			}
@@ -656,7 +932,9 @@ func init() {
 				for k := 0; k < nc; k++ {
 					cs = append(cs, c02GenCasc(g.R, maxNodes, pf))
 				}
+				ecalMode = i%5 == 4
 				emit(workers, g.R.Intn(4) == 0, g.R.Intn(3) == 0, cs)
+				ecalMode = false
 			}
 		},
 		Run: c02Run,
